@@ -285,6 +285,10 @@ func c04Check(name string, o Obs) []Failure {
 type c03Checker struct {
 	last   map[int]string // obs key at last evaluation per URL (skip unchanged objects)
 	exempt int
+	// foreign: the call that created this URL, run through the standard's algorithms on the
+	// standard's state of its base, gives another result (or none). A created URL that does not
+	// round-trip is exempt only if the standard creates the very same URL from the same call.
+	foreign map[int]bool
 }
 
 func (c *c03Checker) Exempt() int { return c.exempt }
@@ -309,6 +313,79 @@ func modelRoundTrips(o Obs) bool {
 	return strings.Join(modelPrimary(m2), "\x01") == strings.Join(modelPrimary(m), "\x01")
 }
 
+// modelCreate runs the creating call through the standard's algorithms: a parse of strings, or the
+// resolution of a reference against the standard's state of the base *object* (which may be a
+// state no string parses to). ok=false: the model cannot say (IDNA it does not cover, base not
+// tracked).
+func (c *c03Checker) modelCreate(w *World, ev *Event) (m *model.URL, failed bool, ok bool) {
+	parse := func(in string, base *model.URL) (*model.URL, bool, bool) {
+		m, res := model.Parse(in, base, nil, model.NoState)
+		switch res {
+		case model.Unsupported:
+			return nil, false, false
+		case model.Failure:
+			return nil, true, true
+		}
+		return m, false, true
+	}
+	op := ev.Op
+	switch op.K {
+	case "parse":
+		if op.W == 1 && string(op.B) != "" {
+			bm, bf, bok := parse(string(op.B), nil)
+			if !bok {
+				return nil, false, false
+			}
+			if bf {
+				return nil, true, true
+			}
+			return parse(string(op.A), bm)
+		}
+		if op.W == 2 {
+			// the basic URL parser with a (blank) url given: the standard strips nothing from the input
+			m, res := model.Parse(string(op.A), nil, &model.URL{}, model.NoState)
+			switch res {
+			case model.Unsupported:
+				return nil, false, false
+			case model.Failure:
+				return nil, true, true
+			}
+			return m, false, true
+		}
+		return parse(string(op.A), nil)
+	case "resolve":
+		if op.W == 1 {
+			// against the re-parsed serialization of the base
+			if ev.Read < 0 {
+				return nil, false, false
+			}
+			bm, bf, bok := parse(w.Cur[ev.Read].HrefNF, nil)
+			if !bok || bf {
+				return nil, bf, bok
+			}
+			return parse(ev.Val, bm)
+		}
+		if ev.Read < 0 {
+			return nil, false, false
+		}
+		bh := w.U[ev.Read]
+		if bh == nil || bh.M == nil || bh.MDead {
+			return nil, false, false
+		}
+		return parse(ev.Val, bh.M.Clone())
+	case "clone":
+		if ev.Read < 0 {
+			return nil, false, false
+		}
+		bh := w.U[ev.Read]
+		if bh == nil || bh.M == nil || bh.MDead {
+			return nil, false, false
+		}
+		return bh.M.Clone(), false, true
+	}
+	return nil, false, false
+}
+
 // track runs the standard's algorithms in lockstep (as C05 does), so that the exemption can tell a
 // state the standard reaches and does not round-trip from a state the standard never reaches.
 func (c *c03Checker) track(w *World, ev *Event) {
@@ -317,6 +394,20 @@ func (c *c03Checker) track(w *World, ev *Event) {
 	if ev.Created >= 0 {
 		uh := w.U[ev.Created]
 		o := w.Cur[ev.Created]
+		if c.foreign == nil {
+			c.foreign = map[int]bool{}
+		}
+		uh.MDead = false
+		if m, failed, ok := c.modelCreate(w, ev); ok && w.Cfg.Profile == "" {
+			if failed {
+				c.foreign[ev.Created] = true
+			} else if f, _, _ := diffPrimary(o.Primary(), modelPrimary(m)); f != "" {
+				c.foreign[ev.Created] = true
+			} else {
+				uh.M = m
+				return
+			}
+		}
 		uh.M = abstract(o)
 		if f, _, _ := diffPrimary(o.Primary(), modelPrimary(uh.M)); f != "" {
 			uh.MDead = true
@@ -361,9 +452,23 @@ func (c *c03Checker) After(w *World, ev *Event) []Failure {
 			}
 		}
 		if why == nil {
+			// A state that round-trips is none of this property's business even where it is not the
+			// standard's (that is C05's): go on from the real state, so that a later exception is
+			// judged by itself.
+			delete(c.foreign, id)
+			if uh := w.U[id]; uh.M != nil && !uh.MDead {
+				if f, _, _ := diffPrimary(o.Primary(), modelPrimary(uh.M)); f != "" {
+					uh.M = abstract(o)
+					if f, _, _ := diffPrimary(o.Primary(), modelPrimary(uh.M)); f != "" {
+						uh.MDead = true
+					}
+				}
+			}
 			continue
 		}
-		if uh := w.U[id]; uh.M != nil && !uh.MDead {
+		if c.foreign[id] {
+			// created by a call from which the standard creates something else: never exempt
+		} else if uh := w.U[id]; uh.M != nil && !uh.MDead {
 			if f, _, _ := diffPrimary(o.Primary(), modelPrimary(uh.M)); f == "" {
 				// the standard reaches exactly this state: exempt iff the standard does not round-trip it
 				if !modelRoundTrips(o) {
